@@ -124,7 +124,7 @@ def gen(ctx):
     rng = ctx.rng
     thorough = ctx.tier == "thorough"
     groups = []
-    n_expr = 6000 if thorough else 230
+    n_expr = 6000 if thorough else 190
     for _ in range(n_expr):
         sigma, foreign = rng.choices(POOLS, WEIGHTS)[0]
         g = B.ReGen(rng, sigma, foreign)
@@ -269,6 +269,25 @@ def evaluate(g, tagged, answers):
                 bad.append(("O1-options", "option %s changes the result of subject #%d: %s vs %s" % (t[2:], k, x[k], f[k]), Ln[t]))
     f = fFH            # the reference for the remaining oracles is the run without pre-filters
     w = split_res(A["wrapF"])[0]
+    # F34: on the Boyer-Moore-only path (the whole expression is one literal) the end position is computed from the
+    # length of the pattern TEXT: end - start == length of the text although the plain matcher finds a shorter window
+    plen = units(g["pat"])
+    f34 = False
+    if w != ["parse-error"]:
+        for p, q in zip(w, fFH):
+            if p[:1] == "1" and q[:1] == "1" and p != q:
+                a0, b0 = map(int, q[2:].split(",")[0].split("_"))
+                a1, b1 = map(int, p[2:].split(",")[0].split("_"))
+                if a0 == a1 and b0 - a0 == plen and b1 - a1 != plen:
+                    f34 = True
+    for k, q in enumerate(fFH):
+        if q[:1] == "1" and k < len(g["subj"]):
+            a0, b0 = map(int, q[2:].split(",")[0].split("_"))
+            if b0 - a0 == plen and b0 > units(g["subj"][k]):
+                f34 = True                  # a window that ends beyond the subject
+    if f34:
+        bad.append(("F34-fixed-end", "Boyer-Moore-only path reports end = start + length of the pattern text", Ln["f"]))
+        return bad, None
     if w != ["parse-error"]:
         for k, (p, q) in enumerate(zip(w, f)):
             if found(p) != found(q) or (p[:1] == "1" and p[2:].split(",")[0] != q[2:].split(",")[0]):
